@@ -148,6 +148,7 @@ def run_one(sid, tier):
         env = dict(GOENV, VERIF_REPO=wt, VERIF_NOMIN="1")
         if tier == "thorough":
             env["VERIF_SEED"] = "7"
+            env["VERIF_BUDGET_SCALE"] = os.environ.get("SEEDED_THOROUGH_SCALE", "0.34")
         rc, o = sh("./verif check %s %s" % (prop, tier), cwd=HERE, env=env, timeout=4 * 3600)
     finally:
         drop(wt)
